@@ -66,7 +66,7 @@ def run_idx(prog, rep):
 
 
 def run_narrow(prog, rep):
-    rule = rep.rule('R-NARROW', 'extents/sizes are never cast to an element-dependent or narrower type (outside the tabled rank/column casts)', floor=3)
+    rule = rep.rule('R-NARROW', 'extents/sizes are never cast to an element-dependent or narrower type (outside the tabled rank/column casts)', floor=2)
     TABLE = {
         ('nix::hdf5::H5Group::createData', 'int'): 'rank of the chunk vector (H5Pset_chunk takes int); ranks are tiny',
         ('nix::hdf5::DataSpace::create', 'int'): 'rank of the dims vector (H5Screate_simple takes int); ranks are tiny',
@@ -109,7 +109,7 @@ def run_narrow(prog, rep):
                 rule.ok('%s|cast-to-%s' % (fq, to_c), rep.where(c), f.label(), 'tabled: ' + reason, nontrivial=False)
             else:
                 rule.bad('%s|cast-to-%s' % (fq, to_c), rep.where(c), f.label(), 'size/extent %s narrowed to %s without check::fits_in_size_t / a tabled reason' % (src.src(30), to_c))
-    if n < 3:
+    if n < 2:
         raise AnalysisBroken('R-NARROW: only %d narrowing casts found' % n)
     return rule
 
@@ -322,3 +322,66 @@ def _fold_fresh(sem, f, lv, mods, ct, node):
     if isinstance(ct, tuple) and ct[:2] == ('m', 'empty') and fresh(ct[2]):
         return True
     return None
+
+
+def run_rawbuf(prog, rep):
+    """a local std::string / std::vector handed to a C API as a writable raw buffer has been given that many elements (resize / sized
+    constructor), not merely capacity (reserve): otherwise the elements written are not part of the container (size() stays 0)"""
+    sem = Sem(prog)
+    rule = rep.rule('R-RAWBUF', 'a local container handed out as a writable raw buffer was sized (resize / sized constructor) before, not only reserve()d', floor=5)
+    n = 0
+    for f in sorted(prog.funcs.values(), key=lambda f: (f.file, f.line)):
+        if f.body is None or not ((f.file or '').startswith('/repo') or f.q.startswith('nix::')) or f.q.startswith('std::') or f.q.startswith('boost::'):
+            continue
+        lv = sem.local_vars(f)
+        seen = set()
+        for c in f.calls():
+            cal = c.callee or {}
+            if cal.get('cls') and not (cal.get('cls') or '').startswith('nix::hdf5'):
+                continue
+            ptypes = split_sig_local(cal.get('sig') or '()')
+            for i, a in enumerate(real_args(c)):
+                if a is None:
+                    continue
+                pt = ptypes[i] if i < len(ptypes) else ''
+                if 'const' in pt.split('*')[0] or '*' not in pt:
+                    continue
+                x = unwrap(a)
+                base = None
+                # &v[0]  |  v.data()
+                if x.k == 'unop' and x.get('op') == '&' and x.c:
+                    y = unwrap(x.c[0])
+                    if (y.k == 'call' and y.get('op') == '[]') or y.k == 'subscript':
+                        b = unwrap(y.c[0])
+                        base = b if b.k == 'ref' else None
+                elif x.k == 'call' and x.get('member') and (x.callee or {}).get('name') == 'data' and x.c:
+                    b = unwrap(x.c[0])
+                    base = b if b.k == 'ref' else None
+                if base is None or base.decl.get('kind') != 'local':
+                    continue
+                v = lv.get(base.decl.get('lid'))
+                ty = (v.get('ctype') or v.get('type') or '') if v is not None else ''
+                if v is None or not re.match(r'^(std::vector<|std::basic_string<|std::string)', ty):
+                    continue
+                key = '%s|%s|%s' % (re.sub(r'<.*', '', f.q), v.get('name'), cal.get('name'))
+                if key in seen:
+                    continue
+                seen.add(key)
+                n += 1
+                sized_ctor = v.c and v.c[0] is not None and _has_elems(v.c[0])
+                ops = [m for m in f.calls() if m.get('member') and m.c and unwrap(m.c[0]).k == 'ref' and unwrap(m.c[0]).decl.get('lid') == v.get('lid') and m.id < c.id]
+                names = [(m.callee or {}).get('name') for m in ops]
+                sized = sized_ctor or any(nm in ('resize', 'assign', 'push_back', 'emplace_back', 'insert') for nm in names)
+                why = ''
+                if not sized:
+                    why = ('%s is handed to %s as a writable buffer but was only reserve()d: its size() stays 0, the bytes written are not part of the container (returned empty / undefined behaviour)' % (v.get('name'), cal.get('name'))
+                           if 'reserve' in names else '%s is handed to %s as a writable buffer without having been sized' % (v.get('name'), cal.get('name')))
+                rule.check(sized, key, rep.where(c), f.label(), '%s sized by %s before %s writes into it' % (v.get('name'), 'its constructor' if sized_ctor else '/'.join(x for x in names if x), cal.get('name')), why)
+    if n < 5:
+        raise AnalysisBroken('R-RAWBUF: only %d raw-buffer hand-outs found' % n)
+    return rule
+
+
+def split_sig_local(sig):
+    from ..sem import split_sig
+    return split_sig(sig)
